@@ -271,17 +271,25 @@ def check_decompile_source_map(rops, text, sm, comp2, relation, before):
         if off not in by_off:
             viols.append({"kind": "key-not-an-input-offset", "detail": {**detail0, "key": off}})
             continue
-        if by_off[off][2].op_code.name == "Jump":
-            # written before it is known whether a jump statement follows (documented in the code): not position-checked
-            continue
         if not (0 <= mp.line < len(lines)):
             viols.append({"kind": "line-out-of-range", "detail": {**detail0, "key": off, "entry": [mp.line, mp.column]}})
             continue
         ln = lines[mp.line]
         first = len(ln) - len(ln.lstrip(" "))
-        if ln.strip() == "" or mp.column != first:
+        at = ln[mp.column:] if 0 <= mp.column <= len(ln) else ""
+        if ln[first:].startswith("} elseif"):
+            # the statement of this op is the elseif header that stands behind the closing brace
+            ok_pos = mp.column == first + 2
+        else:
+            ok_pos = ln.strip() != "" and mp.column == first
+        if not ok_pos:
             viols.append({"kind": "not-at-statement-start", "detail": {**detail0, "key": off, "entry": [mp.line, mp.column],
                                                                       "line_text": ln}})
+        elif by_off[off][2].op_code.name == "Jump" and not text.startswith(MARKER) and \
+                not at.startswith(("jump @", "break_loop;", "continue;")):
+            # a Jump op has an entry only where a statement was printed for it
+            viols.append({"kind": "jump-entry-not-at-a-jump-statement", "detail": {**detail0, "key": off, "entry": [mp.line, mp.column],
+                                                                                 "line_text": ln}})
     if viols:
         return viols
     # relate input ops to the ops of the recompiled text and compare lines with the compile-time map
